@@ -701,11 +701,16 @@ func runCrashCase(r *rep.Reporter, cc crashCase) {
 		k := inflightKey
 		g0, err := cl.do("GET", p2.url(bucket, k), nil, nil, 0)
 		if err == nil {
+			// what the key is after the first recovery, judged on body and headers alike (two
+			// uploads may carry the same bytes, an empty body for example, and differ in their headers)
 			var cur objState
+			is := func(st objState) bool {
+				return st.present && g0.Status == 200 && bytes.Equal(g0.Body, st.body) && g0.Header.Get("Content-Type") == st.ctype && g0.Header.Get("X-Amz-Meta-Step") == st.step
+			}
 			switch {
 			case g0.Status == 404:
 				cur = objState{}
-			case acked[k].present && bytes.Equal(g0.Body, acked[k].body):
+			case is(acked[k]):
 				cur = acked[k]
 			default:
 				cur = inflightNew
